@@ -787,7 +787,22 @@ func planC17(prop string, seed uint64, tier string, idx int) *Plan {
 			}
 			if mode == 5 && len(as) > 1 {
 				// a converted response for the same subject coexists (a partly converted or mixed-tool layout)
-				cr.Resp = append(cr.Resp, convResp{Subj: s, Algo: algo, Arts: as[:1+g.r.intn(len(as)-1)]})
+				k := 1 + g.r.intn(len(as)-1)
+				cr.Resp = append(cr.Resp, convResp{Subj: s, Algo: algo, Arts: as[:k]})
+				if g.r.chance(60) {
+					// … and each of the two lists something the other does not
+					inResp := map[int]bool{}
+					for _, a := range as[:k] {
+						inResp[a] = true
+					}
+					ents := fb.Ents[:0]
+					for _, e := range fb.Ents {
+						if !inResp[e.Art] {
+							ents = append(ents, e)
+						}
+					}
+					fb.Ents = ents
+				}
 			}
 			if len(fb.Ents) > 0 {
 				cr.FB = append(cr.FB, fb)
